@@ -4,8 +4,9 @@ Unit: Interpreter.queue / execute_once (with _queue_event, _select_event, _raise
 PythonEvaluator's send(), through the public API.  Symbolic scalars (exact reals, decided for all
 values including ties and the boundary due == now): every delay d >= 0 and every clock advance
 a >= 0.  Solver-enumerated: the kind of each operation of a history of length K (queue a reacting
-event with a delay, queue an unmatched event, advance the clock, execute_once) and one of four small
-charts.  Reference: a multiset of pending (due, class, seq, tag) records; obligations per step are
+event with a delay, queue an unmatched event, advance the clock, execute_once -- the very first
+execute_once, which only initialises, may come before or after other operations) and one of five small
+charts (ignore, react-and-send-delayed, eventless chain, two sends, eventless internal transitions).  Reference: a multiset of pending (due, class, seq, tag) records; obligations per step are
 z3 formulas over the dues.  Every event carries a unique tag.
 """
 import itertools
